@@ -166,8 +166,23 @@ def bandVerdicts (args : List String) (res : Option (List String)) : List (Strin
             (match out with
              | [m, n] =>
                (match m.toInt?, n.toInt? with
-                | some m, some n => if Spec.isNA m n || (m == n + 8 && n ≤ 242 && n ≥ 0) then [] else [("C13", "max-payload-size-not-N-plus-8-or-N-above-242")]
+                | some m, some n =>
+                  (if Spec.isNA m n || (m == n + 8 && n ≤ 242 && n ≥ 0) then [] else [("C13", "max-payload-size-not-N-plus-8-or-N-above-242")]) ++
+                  -- the size returned is the cell of the (regenerated) tables that the fallback rule of the property selects
+                  (match rest[0]?, rest[1]?, ai 2 with
+                   | some v, some r, some d =>
+                     (match Spec.maxPayloadCell cfg (keyIndex v) (keyIndex r) d with
+                      | some (m', n') => if m == m' && n == n' then [] else [("C13", "max-payload-size-is-not-the-cell-the-version-revision-fallback-selects")]
+                      | none => [("C13", "max-payload-size-returned-for-a-cell-the-tables-do-not-have")])
+                   | _, _, _ => [])
                 | _, _ => [])
+             | ["ERR"] =>
+               (match rest[0]?, rest[1]?, ai 2 with
+                | some v, some r, some d =>
+                  (match Spec.maxPayloadCell cfg (keyIndex v) (keyIndex r) d with
+                   | some _ => [("C13", "max-payload-size-refused-for-a-cell-the-fallback-selects")]
+                   | none => [])
+                | _, _, _ => [])
              | _ => [])
           | "planapply" =>
             (match (rest[0]?).bind parseIntList, out with
